@@ -15,7 +15,7 @@ import (
 )
 
 func init() {
-	register("C13", "other", LoadOpts{TC: true, SSA: true}, checkC13)
+	register("C13", "other", LoadOpts{TC: true, SSA: true, Controls: []string{"nd", "gl", "po"}}, checkC13)
 }
 
 const poolGet = "(*github.com/valyala/bytebufferpool.Pool).Get"
@@ -36,22 +36,22 @@ func fullCalleeName(c *ssa.CallCommon) string {
 
 // Opaque callees that neither retain nor mutate a byte slice / buffer handed to them (DESIGN.md §3.4).
 var nonRetaining = map[string]string{
-	"invoke (io.Writer).Write":                                        "io.Writer contract: must not retain or modify p",
-	"github.com/golang/snappy.Encode":                                 "dst is overwritten before it is read; src is only read",
-	"github.com/golang/snappy.MaxEncodedLen":                          "",
-	"(*compress/gzip.Writer).Write":                                   "compresses into the underlying writer, does not retain p",
-	"(*compress/gzip.Writer).Close":                                   "",
-	"compress/gzip.NewWriterLevel":                                    "returned writer wraps the buffer (alias)",
-	"(*github.com/valyala/bytebufferpool.ByteBuffer).Write":           "",
-	"(*github.com/valyala/bytebufferpool.ByteBuffer).WriteString":     "",
-	"(*github.com/valyala/bytebufferpool.ByteBuffer).WriteByte":       "",
-	"(*github.com/valyala/bytebufferpool.ByteBuffer).Bytes":           "returns the buffer's bytes (alias)",
-	"(*github.com/valyala/bytebufferpool.ByteBuffer).Len":             "",
-	"(*github.com/valyala/bytebufferpool.ByteBuffer).Reset":           "",
-	"encoding/binary.Write":                                           "",
-	"(encoding/binary.littleEndian).PutUint32":                        "",
-	"(encoding/binary.littleEndian).PutUint64":                        "",
-	"(encoding/binary.littleEndian).PutUint16":                        "",
+	"invoke (io.Writer).Write":                                    "io.Writer contract: must not retain or modify p",
+	"github.com/golang/snappy.Encode":                             "dst is overwritten before it is read; src is only read",
+	"github.com/golang/snappy.MaxEncodedLen":                      "",
+	"(*compress/gzip.Writer).Write":                               "compresses into the underlying writer, does not retain p",
+	"(*compress/gzip.Writer).Close":                               "",
+	"compress/gzip.NewWriterLevel":                                "returned writer wraps the buffer (alias)",
+	"(*github.com/valyala/bytebufferpool.ByteBuffer).Write":       "",
+	"(*github.com/valyala/bytebufferpool.ByteBuffer).WriteString": "",
+	"(*github.com/valyala/bytebufferpool.ByteBuffer).WriteByte":   "",
+	"(*github.com/valyala/bytebufferpool.ByteBuffer).Bytes":       "returns the buffer's bytes (alias)",
+	"(*github.com/valyala/bytebufferpool.ByteBuffer).Len":         "",
+	"(*github.com/valyala/bytebufferpool.ByteBuffer).Reset":       "",
+	"encoding/binary.Write":                                       "",
+	"(encoding/binary.littleEndian).PutUint32":                    "",
+	"(encoding/binary.littleEndian).PutUint64":                    "",
+	"(encoding/binary.littleEndian).PutUint16":                    "",
 }
 
 var returnsAliasOpaque = map[string]bool{
@@ -514,84 +514,12 @@ func checkC13(c *Ctx) {
 	// PO
 	reslices := 0
 	for _, f := range u.Funcs {
-		ord := 0
-		for _, b := range f.Blocks {
-			for _, ins := range b.Instrs {
-				call, ok := ins.(*ssa.Call)
-				if !ok || fullCalleeName(call.Common()) != poolGet {
-					continue
-				}
-				ord++
-				r.count("PO/get-sites", 1)
-				key := fmt.Sprintf("%s Get #%d", u.FnName(f), ord)
-				pos := u.Pos(call.Pos())
-				// PO1: Put discipline
-				var puts []ssa.Instruction
-				deferred := 0
-				for _, b2 := range f.Blocks {
-					for _, i2 := range b2.Instrs {
-						ci, ok := i2.(ssa.CallInstruction)
-						if !ok || fullCalleeName(ci.Common()) != poolPut || len(ci.Common().Args) != 2 {
-							continue
-						}
-						if ci.Common().Args[1] != ssa.Value(call) {
-							continue
-						}
-						puts = append(puts, i2)
-						if _, ok := i2.(*ssa.Defer); ok {
-							deferred++
-							if ci.Common().Args[0] != call.Common().Args[0] {
-								r.bad("PO1", key+" pool", pos, "buffer is Put into a different pool than it was taken from")
-							}
-						}
-					}
-				}
-				s := p.analyse(f, []ssa.Value{call}, true)
-				switch {
-				case len(puts) == 0:
-					r.ok("PO1", key, pos, "never Put back (harmless for isolation: the buffer is simply dropped)")
-				case len(puts) == 1 && deferred == 1:
-					r.ok("PO1", key, pos, "single deferred Put on the same pool: runs after the last use in this function")
-				case len(puts) == 1:
-					// explicit Put: nothing may use the buffer afterwards
-					after := reachableAfter(puts[0])
-					var bad []string
-					for ins := range after {
-						if _, ok := ins.(*ssa.DebugRef); ok {
-							continue
-						}
-						for _, op := range ins.Operands(nil) {
-							if *op != nil && s.al[*op] {
-								bad = append(bad, u.Pos(ins.Pos()))
-							}
-						}
-					}
-					sort.Strings(bad)
-					if len(bad) > 0 {
-						r.bad("PO1", key, pos, "the buffer (or a slice of its bytes) is still used at "+bad[0]+" after it has been Put back at "+u.Pos(puts[0].Pos())+" — another instance may already own it")
-					} else {
-						r.ok("PO1", key, pos, "explicit Put at "+u.Pos(puts[0].Pos())+"; no alias of the buffer is used on any path after it")
-					}
-				default:
-					r.bad("PO1", key, pos, fmt.Sprintf("%d Put sites for one Get: the same buffer can enter the pool twice and be handed to two instances", len(puts)))
-				}
-				// PO2
-				if len(s.escapes) > 0 {
-					r.bad("PO2", key, pos, strings.Join(s.escapes, " | "))
-				} else if len(s.undec) > 0 {
-					r.undecided("PO2", key, pos, strings.Join(s.undec, " | "))
-				} else {
-					r.ok("PO2", key, pos, "no alias of the buffer outlives the Get…Put window (not returned, stored, captured, sent; callees non-retaining)")
-				}
-				// PO3
-				if len(s.stale) > 0 {
-					r.bad("PO3", key, pos, strings.Join(s.stale, " | "))
-				} else {
-					r.ok("PO3", key, pos, "bytes left by a previous user are never observable (upward reslice only as snappy.Encode dst)")
-				}
-			}
+		if u.isCtl(f) {
+			continue
 		}
+		poFunction(u, p, r, f)
 	}
+	c.controlsPO()
 	for _, s := range p.memo {
 		reslices += s.reslices
 	}
@@ -624,7 +552,7 @@ func checkGL(c *Ctx) {
 	sort.Strings(paths)
 	for _, path := range paths {
 		sp := u.SSAPkgs[path]
-		if sp == nil {
+		if sp == nil || strings.HasPrefix(path, "uni/ctl/") {
 			continue
 		}
 		var names []string
@@ -658,6 +586,7 @@ func checkGL(c *Ctx) {
 			}
 		}
 	}
+	c.controlsGL()
 	r.floor("GL/globals", 2+2*len(u.TC), "parquet.buffpool, parquet.fieldFuncs; buffpool and par1 per generated package")
 }
 
@@ -824,55 +753,143 @@ func checkND(c *Ctx) {
 	sort.Slice(fns, func(i, j int) bool { return fns[i].String() < fns[j].String() })
 	n := 0
 	for _, f := range fns {
-		var found []string
-		for _, b := range f.Blocks {
-			for _, ins := range b.Instrs {
-				pos := u.Pos(ins.Pos())
-				switch x := ins.(type) {
-				case *ssa.Go:
-					found = append(found, "go statement at "+pos)
-				case *ssa.Select:
-					found = append(found, "select at "+pos)
-				case *ssa.Send:
-					found = append(found, "channel send at "+pos)
-				case *ssa.MakeChan:
-					found = append(found, "channel creation at "+pos)
-				case *ssa.UnOp:
-					if x.Op == token.ARROW {
-						found = append(found, "channel receive at "+pos)
-					}
-				case *ssa.Range:
-					if _, ok := x.X.Type().Underlying().(*types.Map); ok {
-						found = append(found, "iteration over a map at "+pos+" (order differs from run to run)")
-					}
-				case *ssa.Convert:
-					if b, ok := x.X.Type().Underlying().(*types.Basic); ok && b.Kind() == types.UnsafePointer {
-						found = append(found, "unsafe pointer conversion at "+pos)
-					}
-				case ssa.CallInstruction:
-					cc := x.Common()
-					if sc := cc.StaticCallee(); sc != nil && sc.Pkg != nil {
-						if why, ok := ndPkgs[sc.Pkg.Pkg.Path()]; ok {
-							found = append(found, fmt.Sprintf("call of %s.%s (%s) at %s", sc.Pkg.Pkg.Path(), sc.Name(), why, pos))
-						}
-					}
-					if bi, ok := cc.Value.(*ssa.Builtin); ok && bi.Name() == "recover" {
-						found = append(found, "recover() at "+pos)
-					}
-					for _, a := range cc.Args {
-						if k, ok := a.(*ssa.Const); ok && k.Value != nil && k.Value.Kind() == constant.String && strings.Contains(constant.StringVal(k.Value), "%p") {
-							found = append(found, "%p formatting at "+pos)
-						}
-					}
-				}
-			}
-		}
+		found := ndScanFn(u, f)
 		n++
 		if len(found) > 0 {
 			r.bad("ND", u.FnName(f), u.Pos(f.Pos()), strings.Join(found, "; "))
 		}
 	}
+	c.controlsND()
 	r.count("ND/functions", n)
 	r.ok("ND", "reachable functions scanned", "", fmt.Sprintf("%d functions reachable from the API roots contain no goroutine, channel, select, map iteration, clock, randomness, environment, runtime, unsafe, reflect, recover or %%p", n))
 	r.floor("ND/functions", 40, "API roots plus runtime helpers")
+}
+
+// poFunction emits the PO obligations for every pool Get in f.
+func poFunction(u *Universe, p *poAn, r *Report, f *ssa.Function) {
+	ord := 0
+	for _, b := range f.Blocks {
+		for _, ins := range b.Instrs {
+			call, ok := ins.(*ssa.Call)
+			if !ok || fullCalleeName(call.Common()) != poolGet {
+				continue
+			}
+			ord++
+			r.count("PO/get-sites", 1)
+			key := fmt.Sprintf("%s Get #%d", u.FnName(f), ord)
+			pos := u.Pos(call.Pos())
+			// PO1: Put discipline
+			var puts []ssa.Instruction
+			deferred := 0
+			for _, b2 := range f.Blocks {
+				for _, i2 := range b2.Instrs {
+					ci, ok := i2.(ssa.CallInstruction)
+					if !ok || fullCalleeName(ci.Common()) != poolPut || len(ci.Common().Args) != 2 {
+						continue
+					}
+					if ci.Common().Args[1] != ssa.Value(call) {
+						continue
+					}
+					puts = append(puts, i2)
+					if _, ok := i2.(*ssa.Defer); ok {
+						deferred++
+						if ci.Common().Args[0] != call.Common().Args[0] {
+							r.bad("PO1", key+" pool", pos, "buffer is Put into a different pool than it was taken from")
+						}
+					}
+				}
+			}
+			s := p.analyse(f, []ssa.Value{call}, true)
+			switch {
+			case len(puts) == 0:
+				r.ok("PO1", key, pos, "never Put back (harmless for isolation: the buffer is simply dropped)")
+			case len(puts) == 1 && deferred == 1:
+				r.ok("PO1", key, pos, "single deferred Put on the same pool: runs after the last use in this function")
+			case len(puts) == 1:
+				// explicit Put: nothing may use the buffer afterwards
+				after := reachableAfter(puts[0])
+				var bad []string
+				for ins := range after {
+					if _, ok := ins.(*ssa.DebugRef); ok {
+						continue
+					}
+					for _, op := range ins.Operands(nil) {
+						if *op != nil && s.al[*op] {
+							bad = append(bad, u.Pos(ins.Pos()))
+						}
+					}
+				}
+				sort.Strings(bad)
+				if len(bad) > 0 {
+					r.bad("PO1", key, pos, "the buffer (or a slice of its bytes) is still used at "+bad[0]+" after it has been Put back at "+u.Pos(puts[0].Pos())+" — another instance may already own it")
+				} else {
+					r.ok("PO1", key, pos, "explicit Put at "+u.Pos(puts[0].Pos())+"; no alias of the buffer is used on any path after it")
+				}
+			default:
+				r.bad("PO1", key, pos, fmt.Sprintf("%d Put sites for one Get: the same buffer can enter the pool twice and be handed to two instances", len(puts)))
+			}
+			// PO2
+			if len(s.escapes) > 0 {
+				r.bad("PO2", key, pos, strings.Join(s.escapes, " | "))
+			} else if len(s.undec) > 0 {
+				r.undecided("PO2", key, pos, strings.Join(s.undec, " | "))
+			} else {
+				r.ok("PO2", key, pos, "no alias of the buffer outlives the Get…Put window (not returned, stored, captured, sent; callees non-retaining)")
+			}
+			// PO3
+			if len(s.stale) > 0 {
+				r.bad("PO3", key, pos, strings.Join(s.stale, " | "))
+			} else {
+				r.ok("PO3", key, pos, "bytes left by a previous user are never observable (upward reslice only as snappy.Encode dst)")
+			}
+		}
+	}
+}
+
+// ndScanFn lists the sources of nondeterminism / concurrency found in one function.
+func ndScanFn(u *Universe, f *ssa.Function) []string {
+	var found []string
+	for _, b := range f.Blocks {
+		for _, ins := range b.Instrs {
+			pos := u.Pos(ins.Pos())
+			switch x := ins.(type) {
+			case *ssa.Go:
+				found = append(found, "go statement at "+pos)
+			case *ssa.Select:
+				found = append(found, "select at "+pos)
+			case *ssa.Send:
+				found = append(found, "channel send at "+pos)
+			case *ssa.MakeChan:
+				found = append(found, "channel creation at "+pos)
+			case *ssa.UnOp:
+				if x.Op == token.ARROW {
+					found = append(found, "channel receive at "+pos)
+				}
+			case *ssa.Range:
+				if _, ok := x.X.Type().Underlying().(*types.Map); ok {
+					found = append(found, "iteration over a map at "+pos+" (order differs from run to run)")
+				}
+			case *ssa.Convert:
+				if b, ok := x.X.Type().Underlying().(*types.Basic); ok && b.Kind() == types.UnsafePointer {
+					found = append(found, "unsafe pointer conversion at "+pos)
+				}
+			case ssa.CallInstruction:
+				cc := x.Common()
+				if sc := cc.StaticCallee(); sc != nil && sc.Pkg != nil {
+					if why, ok := ndPkgs[sc.Pkg.Pkg.Path()]; ok {
+						found = append(found, fmt.Sprintf("call of %s.%s (%s) at %s", sc.Pkg.Pkg.Path(), sc.Name(), why, pos))
+					}
+				}
+				if bi, ok := cc.Value.(*ssa.Builtin); ok && bi.Name() == "recover" {
+					found = append(found, "recover() at "+pos)
+				}
+				for _, a := range cc.Args {
+					if k, ok := a.(*ssa.Const); ok && k.Value != nil && k.Value.Kind() == constant.String && strings.Contains(constant.StringVal(k.Value), "%p") {
+						found = append(found, "%p formatting at "+pos)
+					}
+				}
+			}
+		}
+	}
+	return found
 }
